@@ -120,6 +120,9 @@ func TestC19Store(t *testing.T) {
 		}
 
 		idPool := []string{"a", "b", "c", "d", ""} // "": a resource whose ID is missing
+		batchIDs := []string{}
+		batchSeq := 0
+		bulk := rapid.IntRange(0, 3).Draw(t, "bulk") == 0
 		history := []string{}
 		adds, hits, typeChanges := 0, 0, 0
 
@@ -239,6 +242,63 @@ func TestC19Store(t *testing.T) {
 				adds++
 
 				do(fmt.Sprintf("Add(%s %s)", spec, gen.ShowVals(vals)), func() { col.Add(res) })
+			},
+			"AddMany": func(t *rapid.T) {
+				// Many plain members at once (fresh IDs, zero values), so that
+				// the collection reaches sizes a single history cannot.
+				if !bulk || batchSeq > 0 {
+					t.Skip("no bulk addition in this history (one history in four has one)")
+				}
+
+				k := rapid.IntRange(10, 45).Draw(t, "howmany")
+
+				for i := 0; i < k; i++ {
+					id := fmt.Sprintf("m%d", batchSeq)
+					batchSeq++
+					batchIDs = append(batchIDs, id)
+					model.items = append(model.items, &colItem{id: id, vals: map[string]any{}})
+
+					if p := oracle.Try(func() {
+						res := col.Type.New()
+						res.Set("id", id)
+						col.Add(res)
+					}); p != nil {
+						fail("AddMany: Add %s", p)
+					}
+				}
+
+				adds += k
+				history = append(history, fmt.Sprintf("AddMany(%d)", k))
+			},
+			"RemoveMany": func(t *rapid.T) {
+				if len(batchIDs) == 0 {
+					t.Skip("nothing was added in bulk")
+				}
+
+				k := rapid.IntRange(1, len(batchIDs)).Draw(t, "howmany")
+				order := rapid.Permutation(batchIDs).Draw(t, "which")
+
+				for _, id := range order[:k] {
+					for i, it := range model.items {
+						if it.id == id {
+							model.items = append(model.items[:i:i], model.items[i+1:]...)
+							hits++
+
+							break
+						}
+					}
+
+					if p := oracle.Try(func() { col.Remove(id) }); p != nil {
+						fail("RemoveMany: Remove(%q) %s", id, p)
+					}
+
+					if col.Len() != len(model.items) {
+						fail("after Remove(%q) (one of many) Len() = %d, the list has %d", id, col.Len(), len(model.items))
+					}
+				}
+
+				batchIDs = append([]string{}, order[k:]...)
+				history = append(history, fmt.Sprintf("RemoveMany(%d)", k))
 			},
 			"Remove": func(t *rapid.T) {
 				id := rapid.SampledFrom(append([]string{"zz"}, idPool...)).Draw(t, "id")
